@@ -97,8 +97,65 @@ func checkHOTPDerivation(c *Check, w *World, tb *TB, iv *IV, ef *Effects, pfx st
 		}
 	case macT.Op == "call" && macT.Sym == "crypto/hmac.New" && len(macT.Args) == 2:
 		keyT = macT.Args[1]
-		// hash chosen by a switch on the algorithm: each case must select the hash of the same name
+		// hash chosen by a switch on the algorithm — or by indexing a local array literal with it: each case /
+		// entry must select the hash of the same name
 		tabl := enumSwitchFuncs(w, tb, der, roles.Algo)
+		if ht := macT.Args[0]; len(tabl) == 0 && ht.Op == "index" && len(ht.Args) == 2 {
+			idx := ht.Args[1]
+			for idx.Op == "conv" && len(idx.Args) == 1 {
+				idx = idx.Args[0]
+			}
+			arr := ht.Args[0]
+			if arr.Op == "slice" {
+				arr = arr.Args[0]
+			}
+			if arr.Op == "mem" {
+				// the array's content as a whole: find the local it names
+				EachInstr(der, func(x ssa.Instruction) {
+					if a, ok := x.(*ssa.Alloc); ok {
+						if t := tb.Of(a); t.Op == "alloc" && strings.TrimSuffix(t.Sym, ".") == strings.TrimSuffix(arr.Sym, ".") {
+							arr = t
+						}
+					}
+				})
+			}
+			if a, ok := arr.Val.(*ssa.Alloc); ok && arr.Op == "alloc" && idx.String() == roles.Algo {
+				saved := tb.curLoad
+				tb.curLoad = nil
+				allocOfMem := func(sym string) (*ssa.Alloc, *Term) {
+					var ra *ssa.Alloc
+					var rt *Term
+					EachInstr(der, func(x ssa.Instruction) {
+						if al, ok := x.(*ssa.Alloc); ok {
+							if t := tb.Of(al); t.Op == "alloc" && strings.TrimSuffix(t.Sym, ".") == strings.TrimSuffix(sym, ".") {
+								ra, rt = al, t
+							}
+						}
+					})
+					return ra, rt
+				}
+				for k := int64(0); k < 16; k++ {
+					e := tb.cellContent(a, arr, []string{fmt.Sprintf("[%d]", k)}, nil)
+					// the literal may be built in a temporary and copied over as a whole
+					for hop := 0; hop < 3 && e.Op == "index" && len(e.Args) == 2 && e.Args[0].Op == "mem" && e.Args[1].IsConst(); hop++ {
+						if a2, t2 := allocOfMem(e.Args[0].Sym); a2 != nil {
+							e = tb.cellContent(a2, t2, []string{"[" + e.Args[1].Sym + "]"}, nil)
+						} else {
+							break
+						}
+					}
+					if e.Op == "zero" {
+						continue
+					}
+					if e.Op == "fn" {
+						tabl[k] = e.Sym
+					} else {
+						tabl[k] = "?" + clip(e.String(), 60)
+					}
+				}
+				tb.curLoad = saved
+			}
+		}
 		for k, want := range wantHash {
 			got := tabl[k]
 			c.Decide(got == want, pfx+".4", fn, fmt.Sprintf("hash-case[%d]", k), "algorithm case selects "+want, fmt.Sprintf("algorithm %d selects %q, expected %s", k, got, want), pos)
@@ -140,8 +197,17 @@ func checkHOTPDerivation(c *Check, w *World, tb *TB, iv *IV, ef *Effects, pfx st
 		switch {
 		case len(writes) != 1:
 			why = fmt.Sprintf("%d Write calls on the HMAC, expected exactly one (the 8 counter bytes)", len(writes))
+		case len(puts) == 0 && handBigEndian8(tb, der, writes[0].Common().Args[0], roles.Counter) == "":
+			// the byte loop msg[i] = byte(counter >> (8*(7-i))), i = 0..7, written into the whole array that is hashed
+			okCounter = dominatesInstr(writes[0], sum)
+			if !okCounter {
+				why = "Write → Sum are not in this order on every path"
+			}
 		case len(puts) != 1:
 			why = fmt.Sprintf("%d binary.Put* calls, expected exactly one big-endian PutUint64 of the counter", len(puts))
+			if len(puts) == 0 {
+				why += " (" + handBigEndian8(tb, der, writes[0].Common().Args[0], roles.Counter) + ")"
+			}
 		default:
 			put, wr := puts[0], writes[0]
 			pn := CalleeName(put.Common())
@@ -363,6 +429,78 @@ func pairSpilled(r *ssa.Return) []spilledPair {
 		out = append(out, *p)
 	}
 	return out
+}
+
+// handBigEndian8: buf is the whole of a local [8]byte whose only stores are buf[i] = byte(counter >> s(i)) inside a
+// loop over i = 0..7 with s(i) = 8*(7-i) for every i (folded for the eight values): the big-endian encoding of the
+// counter written by hand. Returns "" when recognised, else why not.
+func handBigEndian8(tb *TB, der *ssa.Function, buf ssa.Value, counterT string) string {
+	if !wholeArray8(buf) {
+		return "the bytes written to the HMAC are not a whole 8-byte array"
+	}
+	arr := rootOfSlice(buf)
+	var stores []*ssa.Store
+	EachInstr(der, func(in ssa.Instruction) {
+		if st, ok := in.(*ssa.Store); ok {
+			if ia, ok := st.Addr.(*ssa.IndexAddr); ok && ia.X == arr {
+				stores = append(stores, st)
+			}
+		}
+	})
+	if len(stores) != 1 {
+		return fmt.Sprintf("%d indexed stores into the message array, expected the single store of a byte loop", len(stores))
+	}
+	st := stores[0]
+	ia := st.Addr.(*ssa.IndexAddr)
+	idxT := tb.Of(ia.Index)
+	vt := tb.Of(st.Val)
+	if vt.Op != "conv" || (vt.Sym != "byte" && vt.Sym != "uint8") || len(vt.Args) != 1 {
+		return "the byte stored is not a truncation of a shifted counter: " + clip(vt.String(), 120)
+	}
+	sh := vt.Args[0]
+	if sh.Op == "bin" && sh.Sym == "&" && len(sh.Args) == 2 {
+		for k := 0; k < 2; k++ {
+			if sh.Args[k].IsConst() && sh.Args[k].Sym == "255" {
+				sh = sh.Args[1-k]
+			}
+		}
+	}
+	if sh.Op != "bin" || sh.Sym != ">>" || sh.Args[0].String() != counterT {
+		return "the byte stored is not counter >> s(i): " + clip(sh.String(), 120)
+	}
+	for i := int64(0); i < 8; i++ {
+		v, ok := evalEnv(sh.Args[1], map[string]int64{idxT.String(): i})
+		if !ok || v != 8*(7-i) {
+			return fmt.Sprintf("byte %d is not bits %d..%d of the counter (shift %d)", i, 8*(7-i), 8*(7-i)+7, v)
+		}
+	}
+	// the loop runs over i = 0..7: starts at 0, continues while i < 8, the store is in its body
+	start0 := (idxT.Op == "phi" && func() bool {
+		for _, a := range idxT.Alts() {
+			if a.IsConst() && a.Sym == "0" {
+				return true
+			}
+		}
+		return false
+	}()) || (idxT.Op == "bin" && idxT.Sym == "+" && strings.Contains(idxT.String(), "const(-1)") && strings.Contains(idxT.String(), "const(1)"))
+	if !start0 {
+		return "the byte index does not start at 0"
+	}
+	okLoop := false
+	EachInstr(der, func(in ssa.Instruction) {
+		if iff, ok := in.(*ssa.If); ok {
+			ct := tb.Of(iff.Cond)
+			if ct.Op == "bin" && ct.Sym == "<" && ct.Args[0].String() == idxT.String() && ct.Args[1].IsConst() && ct.Args[1].Sym == "8" {
+				if tsucc := iff.Block().Succs[0]; tsucc == st.Block() || tsucc.Dominates(st.Block()) {
+					okLoop = true
+				}
+			}
+		}
+	})
+	if !okLoop {
+		return "the byte loop does not run while i < 8"
+	}
+	return ""
 }
 
 func wholeArray8(v ssa.Value) bool {
